@@ -41,6 +41,14 @@ DOC_AUTOWARE = {
     "unknown": ["unknown", "animal", "movable_object.barrier", "movable_object.debris", "movable_object.pushable_pullable", "movable_object.trafficcone", "movable_object.traffic_cone", "static_object.bicycle rack", "static_object.bollard", "static_object.forklift"],
 }
 DOC_NAME2LABEL = {n: lab for lab, names in DOC_AUTOWARE.items() for n in names}
+# docs/en/perception/label.md, TrafficLightLabel: one table for DETECTION2D / TRACKING2D, one for CLASSIFICATION2D
+# (no table is documented for the other tasks, nothing is claimed for them beyond self-consistency)
+DOC_TLR_STATES = ["green", "red", "yellow", "red_straight", "red_left", "red_left_straight", "red_right", "red_right_straight", "red_right_diagonal", "yellow_right"]
+DOC_TLR = {
+    "detection2d": {**{n: "traffic_light" for n in ["traffic_light"] + DOC_TLR_STATES}, "unknown": "unknown"},
+    "tracking2d": {**{n: "traffic_light" for n in ["traffic_light"] + DOC_TLR_STATES}, "unknown": "unknown"},
+    "classification2d": {**{n: n for n in DOC_TLR_STATES}, "unknown": "unknown"},
+}
 MERGE = {"truck": "car", "bus": "car", "motorbike": "bicycle"}
 
 
@@ -110,6 +118,11 @@ def judge(ctx: Ctx, ref: Ref, name: str, got: Any, tap: str) -> None:
     low = name.lower()
     info = dict(family=ref.family, merge=ref.merge, task=str(ref.conv.evaluation_task), name=name, got=str(got))
     ctx.check(isinstance(got, ref.conv.label_type), "C14/label_of_wrong_family", info, tap)
+    if ref.family == "traffic_light":
+        doc_t = DOC_TLR.get(str(ref.conv.evaluation_task.value), {}).get(low)
+        if doc_t is not None:
+            ctx.count("C14.documented_traffic_light_names_checked")
+            ctx.check(got is TrafficLightLabel(doc_t), "C14/registered_name_not_documented_label", dict(info, documented=doc_t), tap)
     if low in ref.registered:
         exp = ref.registered[low]
         # case variant maps like the lower-case spelling (the converter's own table gives the lower-case image)
@@ -119,6 +132,7 @@ def judge(ctx: Ctx, ref: Ref, name: str, got: Any, tap: str) -> None:
             doc = AutowareLabel(DOC_NAME2LABEL[low])
             doc = merged(doc) if ref.merge else doc
             ctx.check(got is doc, "C14/registered_name_not_documented_label", dict(info, documented=str(doc)), tap)
+
     else:
         ctx.check(got is ref.unknown, "C14/unregistered_name_not_unknown", info, tap)
 
